@@ -74,19 +74,32 @@ def content_of(grammar, type_name: str) -> Any:
     raise ValueError(f"content rule of {type_name} is not a single literal")
 
 
-def parser_accepts(grammar, tree) -> bool:
-    """the real IterativeParser asked directly: does it accept the history's word of message types in
-    ParsingMode.COMPLETE under the reduced (message-level) grammar?  (what predict() relays as `is_complete`,
-    without the forecasting code in between)"""
+def _ask_parser(grammar, tree, mode):
     from fandango.io.navigation.stategrammarconverter import StateGrammarConverter
-    from fandango.language.grammar import ParsingMode
     from fandango.language.grammar.parser.iterative_parser import IterativeParser
     from fandango.language.symbols import NonTerminal
     reduced = StateGrammarConverter(grammar.grammar_settings).process(grammar.rules)
     word = "".join(m.msg.symbol.name() for m in tree.protocol_msgs())
     p = IterativeParser(reduced)
-    p.new_parse(NonTerminal("<start>"), ParsingMode.COMPLETE)
-    for _t, is_complete in p.consume(word):
+    p.new_parse(NonTerminal("<start>"), mode)
+    return p.consume(word)
+
+
+def parser_accepts(grammar, tree) -> bool:
+    """the real IterativeParser asked directly: does it accept the history's word of message types in
+    ParsingMode.COMPLETE under the reduced (message-level) grammar?  (what predict() relays as `is_complete`,
+    without the forecasting code in between)"""
+    from fandango.language.grammar import ParsingMode
+    for _t, is_complete in _ask_parser(grammar, tree, ParsingMode.COMPLETE):
         if is_complete:
             return True
+    return False
+
+
+def parser_yields_partial_tree(grammar, tree) -> bool:
+    """the real IterativeParser asked directly: does the prefix parse (ParsingMode.INCOMPLETE) of the history's
+    word of message types yield any partial tree at all?  (predict() walks exactly these trees)"""
+    from fandango.language.grammar import ParsingMode
+    for _ in _ask_parser(grammar, tree, ParsingMode.INCOMPLETE):
+        return True
     return False
